@@ -985,6 +985,266 @@ fn run_fuzz(exe: &std::path::Path, file: &std::path::Path, n: usize) -> FuzzOutc
     out
 }
 
+
+// ------------------------------------------------------------------------------------ text = direct engine call
+// Twin routers: A is driven by statement TEXT (WHERE clauses printed with the minimal parentheses
+// of the documented precedence), B by the equivalent direct RelationalEngine calls built from the
+// same trees.  After every statement the results and the whole table must coincide.
+mod router_diff {
+    use super::*;
+    use query_router::{QueryResult, QueryRouter};
+    use relational_engine::{Column, ColumnType, Condition, Row, Schema, Value};
+    use std::collections::HashMap;
+
+    fn leaf(r: &mut Rng) -> M {
+        let op = r.range(2, 7);
+        if r.chance(1, 4) {
+            M::Bin(op, a(103), Box::new(M::Atom(*r.pick(&[4u64, 5, 9]))))
+        } else {
+            M::Bin(op, a(*r.pick(&[100u64, 101])), Box::new(M::Atom(*r.pick(&[1u64, 2, 3]))))
+        }
+    }
+    pub fn where_tree(r: &mut Rng, depth: usize) -> M {
+        if depth == 0 || r.chance(1, 4) {
+            return leaf(r);
+        }
+        let o = if r.chance(1, 2) { 0 } else { 1 }; // OR / AND
+        M::Bin(o, Box::new(where_tree(r, depth - 1)), Box::new(where_tree(r, depth - 1)))
+    }
+    fn lit(c: u64) -> Value {
+        match c {
+            1 => Value::Int(1),
+            2 => Value::Int(2),
+            3 => Value::Int(42),
+            4 => Value::String("s".into()),
+            5 => Value::String(String::new()),
+            _ => Value::String("n\u{e9}\u{4e16}".into()),
+        }
+    }
+    fn colname(c: u64) -> String {
+        match c {
+            100 => "a".into(),
+            101 => "b".into(),
+            _ => "x".into(),
+        }
+    }
+    pub fn to_cond(e: &M) -> Condition {
+        match e {
+            M::Bin(0, l, r) => Condition::Or(Box::new(to_cond(l)), Box::new(to_cond(r))),
+            M::Bin(1, l, r) => Condition::And(Box::new(to_cond(l)), Box::new(to_cond(r))),
+            M::Bin(op, l, r) => {
+                let (c, v) = match (&**l, &**r) {
+                    (M::Atom(c), M::Atom(v)) => (colname(*c), lit(*v)),
+                    _ => unreachable!(),
+                };
+                match op {
+                    2 => Condition::Eq(c, v),
+                    3 => Condition::Ne(c, v),
+                    4 => Condition::Lt(c, v),
+                    5 => Condition::Le(c, v),
+                    6 => Condition::Gt(c, v),
+                    _ => Condition::Ge(c, v),
+                }
+            }
+            _ => unreachable!(),
+        }
+    }
+    fn text_of(e: &M, r: &mut Rng) -> String {
+        let mut ts = vec![];
+        body(e, &mut ts);
+        render(&ts, r, false).0
+    }
+    /// single spaces, no comments: the lexical form the legacy string-splitting entry point reads
+    fn plain_text_of(e: &M, r: &mut Rng) -> String {
+        let mut ts = vec![];
+        body(e, &mut ts);
+        render(&ts, r, true).0
+    }
+    fn canon(rows: &[Row]) -> Vec<String> {
+        let mut v: Vec<String> = rows
+            .iter()
+            .map(|r| format!("{}:{:?}/{:?}/{:?}", r.id, r.get("a"), r.get("b"), r.get("x")))
+            .collect();
+        v.sort();
+        v
+    }
+    fn new_router() -> QueryRouter {
+        let r = QueryRouter::new();
+        r.relational()
+            .create_table(
+                "t",
+                Schema::new(vec![
+                    Column::new("a", ColumnType::Int),
+                    Column::new("b", ColumnType::Int).nullable(),
+                    Column::new("x", ColumnType::String),
+                ]),
+            )
+            .unwrap();
+        r
+    }
+    /// returns (statements run, per-entry mismatch descriptions)
+    /// corpus: the witness of C15_legacy_execute_refuted replayed on the real router
+    fn corpus(hits: &mut Hits, dist: &mut Dist) -> usize {
+        let q = new_router();
+        for (a1, b1, x1) in [(1i64, 7i64, "t"), (5, 2, "s"), (5, 2, "t")] {
+            let mut m = HashMap::new();
+            m.insert("a".to_string(), Value::Int(a1));
+            m.insert("b".to_string(), Value::Int(b1));
+            m.insert("x".to_string(), Value::String(x1.into()));
+            q.relational().insert("t", m).unwrap();
+        }
+        let sql = "SELECT * FROM t WHERE a = 1 OR b = 2 AND x = 's'";
+        let cond = Condition::Or(
+            Box::new(Condition::Eq("a".into(), Value::Int(1))),
+            Box::new(Condition::And(
+                Box::new(Condition::Eq("b".into(), Value::Int(2))),
+                Box::new(Condition::Eq("x".into(), Value::String("s".into()))),
+            )),
+        );
+        let want = canon(&q.relational().select("t", cond).unwrap());
+        let rows_of = |r: std::result::Result<QueryResult, String>| match r {
+            Ok(QueryResult::Rows(rows)) => canon(&rows),
+            other => vec![format!("{other:?}")],
+        };
+        let parsed = rows_of(q.execute_parsed(sql).map_err(|e| e.to_string()));
+        let legacy = rows_of(q.execute(sql).map_err(|e| e.to_string()));
+        if parsed != want {
+            hits.push("text-vs-direct", &format!("execute_parsed({sql:?}) -> {parsed:?}; direct call -> {want:?}"), json!({"sql": sql}));
+        }
+        if legacy != want {
+            // F-C15 legacy AND/OR grouping (fixed in 03a8e25d)
+            hits.push("legacy-execute-other", &format!("corpus: QueryRouter::execute({sql:?}) -> {legacy:?}; direct call -> {want:?}"), json!({"sql": sql}));
+            dist.hit("router.differs.execute");
+        }
+        // witness of C15_legacy_execute_refuted: parentheses
+        let sql2 = "SELECT * FROM t WHERE (a >= 3)";
+        let want2 = canon(&q.relational().select("t", Condition::Ge("a".into(), Value::Int(3))).unwrap());
+        let parsed2 = rows_of(q.execute_parsed(sql2).map_err(|e| e.to_string()));
+        let legacy2 = rows_of(q.execute(sql2).map_err(|e| e.to_string()));
+        if parsed2 != want2 {
+            hits.push("text-vs-direct", &format!("execute_parsed({sql2:?}) -> {parsed2:?}; direct call -> {want2:?}"), json!({"sql": sql2}));
+        }
+        if legacy2 != want2 {
+            hits.push("legacy-execute-parentheses", &format!("corpus: QueryRouter::execute({sql2:?}) -> {legacy2:?}; direct call -> {want2:?}"), json!({"sql": sql2}));
+            dist.hit("router.differs.execute");
+        }
+        4
+    }
+
+    pub fn run(r: &mut Rng, n_scen: usize, dist: &mut Dist, hits: &mut Hits) -> usize {
+        let mut total = corpus(hits, dist);
+        for _ in 0..n_scen {
+            let ta = new_router(); // text through execute_parsed
+            let tl = new_router(); // text through the legacy execute
+            let tb = new_router(); // direct calls
+            let mut trace: Vec<String> = vec![];
+            let steps = r.range(6, 16);
+            for _ in 0..steps {
+                let k = r.below(100);
+                let mut legacy_sql = String::new();
+                let (sql, direct): (String, Box<dyn Fn(&QueryRouter) -> String>) = if k < 40 || trace.len() < 3 {
+                    let (av, bv, xv) = (*r.pick(&[1i64, 2, 42]), *r.pick(&[1i64, 2, 42]), *r.pick(&["s", "", "n\u{e9}\u{4e16}"]));
+                    let with_b = r.chance(3, 4);
+                    let sql = if with_b {
+                        format!("INSERT INTO t (a, b, x) VALUES ({av}, {bv}, '{xv}')")
+                    } else {
+                        format!("INSERT INTO t (a, x) VALUES ({av}, '{xv}')")
+                    };
+                    dist.hit("router.insert");
+                    let xv = xv.to_string();
+                    (sql, Box::new(move |q: &QueryRouter| {
+                        let mut m = HashMap::new();
+                        m.insert("a".to_string(), Value::Int(av));
+                        if with_b {
+                            m.insert("b".to_string(), Value::Int(bv));
+                        }
+                        m.insert("x".to_string(), Value::String(xv.clone()));
+                        format!("{:?}", q.relational().insert("t", m).map_err(|e| e.to_string()))
+                    }))
+                } else {
+                    let e = where_tree(r, 3);
+                    let w = text_of(&e, r);
+                    let cond = to_cond(&e);
+                    if k < 55 {
+                        let nv = *r.pick(&[1i64, 2, 42]);
+                        dist.hit("router.update");
+                        (format!("UPDATE t SET b = {nv} WHERE {w}"), Box::new(move |q: &QueryRouter| {
+                            let mut m = HashMap::new();
+                            m.insert("b".to_string(), Value::Int(nv));
+                            format!("{:?}", q.relational().update("t", cond.clone(), m).map_err(|e| e.to_string()))
+                        }))
+                    } else if k < 65 {
+                        dist.hit("router.delete");
+                        (format!("DELETE FROM t WHERE {w}"), Box::new(move |q: &QueryRouter| {
+                            format!("{:?}", q.relational().delete_rows("t", cond.clone()).map_err(|e| e.to_string()))
+                        }))
+                    } else {
+                        dist.hit("router.select");
+                        legacy_sql = format!("SELECT * FROM t WHERE {}", plain_text_of(&e, r));
+                        (format!("SELECT * FROM t WHERE {w}"), Box::new(move |q: &QueryRouter| {
+                            format!("{:?}", q.relational().select("t", cond.clone()).map(|rows| canon(&rows)).map_err(|e| e.to_string()))
+                        }))
+                    }
+                };
+                total += 1;
+                trace.push(sql.clone());
+                let show = |res: std::result::Result<QueryResult, String>| -> String {
+                    match res {
+                        Ok(QueryResult::Rows(rows)) => format!("{:?}", Ok::<_, String>(canon(&rows))),
+                        Ok(QueryResult::Ids(ids)) => format!("{:?}", Ok::<_, String>(ids[0])),
+                        Ok(QueryResult::Count(c)) => format!("{:?}", Ok::<_, String>(c)),
+                        Ok(other) => format!("other {other:?}"),
+                        Err(e) => format!("Err({e:?})"),
+                    }
+                };
+                let want = direct(&tb);
+                let got_a = match guarded(AssertUnwindSafe(|| ta.execute_parsed(&sql).map_err(|e| e.to_string()))) {
+                    Ok(x) => show(x),
+                    Err(p) => format!("panic {p}"),
+                };
+                // the legacy entry point has its own command language for DML: keep its table in step
+                // with direct calls and give it the SELECTs only
+                let got_l = if sql.starts_with("SELECT") {
+                    match guarded(AssertUnwindSafe(|| tl.execute(&legacy_sql).map_err(|e| e.to_string()))) {
+                        Ok(x) => show(x),
+                        Err(p) => format!("panic {p}"),
+                    }
+                } else {
+                    let _ = direct(&tl);
+                    String::new()
+                };
+                let dump = |q: &QueryRouter| canon(&q.relational().select("t", Condition::True).unwrap_or_default());
+                let (da, dl, db) = (dump(&ta), dump(&tl), dump(&tb));
+                let is_select = sql.starts_with("SELECT");
+                // DELETE through text answers with a preview structure: compare the table only
+                let cmp_result = is_select || sql.starts_with("UPDATE") || sql.starts_with("INSERT");
+                if (cmp_result && got_a != want) || da != db {
+                    hits.push(
+                        "text-vs-direct",
+                        &format!("execute_parsed({sql:?}) -> {got_a} / table {da:?}; direct call -> {want} / table {db:?}"),
+                        json!({"trace": trace.clone()}),
+                    );
+                    dist.hit("router.differs.execute_parsed");
+                    break;
+                }
+                if (is_select && got_l != want) || dl != db {
+                    let up = legacy_sql.to_uppercase();
+                    let _ = &up;
+                    let in_class = legacy_sql.contains('(');
+                    hits.push(
+                        if in_class { "legacy-execute-parentheses" } else { "legacy-execute-other" },
+                        &format!("QueryRouter::execute({legacy_sql:?}) -> {got_l}; direct call -> {want}"),
+                        json!({"trace": trace.clone()}),
+                    );
+                    dist.hit("router.differs.execute");
+                    break;
+                }
+            }
+        }
+        total
+    }
+}
+
 // ------------------------------------------------------------------------------------ main
 fn main() {
     let args = Args::parse();
@@ -1095,6 +1355,8 @@ fn main() {
         hits.push(class, &format!("{what}; input {name}: {shown}"), json!({"name": name, "input_hex_file": file.to_string_lossy(), "line": i, "len": s.len()}));
         dist.hit(&format!("fuzz.hit.{class}"));
     }
+    let nrouter = router_diff::run(&mut rng, args.budget(60, 2000), &mut dist, &mut hits);
+    let router_summary = json!({"kind": "router", "cases": nrouter, "distinct_nontrivial": nrouter, "distinct": nrouter});
     dist.add("fuzz.inputs", inputs.len() as u64);
     dist.add("fuzz.deep_corpus", ncorpus as u64);
     dist.add("fuzz.completed", fo.done as u64);
@@ -1104,7 +1366,7 @@ fn main() {
         &args.out,
         json!({
             "property": "C15", "seed": args.seed, "tier": args.tier,
-            "kinds": [tree.summary(), stream.summary(), fuzz_summary],
+            "kinds": [tree.summary(), stream.summary(), fuzz_summary, router_summary],
             "distribution": dist.json(),
             "hits": hits.0,
             "nontrivial_rule": "tree: depth >= 3; stream: an error result or >= 4 tokens; fuzz: every input (run in a child process on a 2 MiB stack)",
